@@ -31,7 +31,7 @@ func targetedC09(run *hx.Run, r *hx.Rng, idx int) {
 	id := []byte{1, 2, 3, 4}
 	root := tu.TestingQBFTRootData
 	at := func(slot uint64, off time.Duration) time.Time { return w.SlotStart(slot).Add(off) }
-	switch idx % 6 {
+	switch idx % 7 {
 	case 0: // duties per epoch: the same signer moves through slots of one epoch (limit 2), then the next epoch
 		role := []spectypes.BeaconRole{spectypes.BNRoleAttester, spectypes.BNRoleAggregator, spectypes.BNRoleSyncCommittee}[r.Intn(3)]
 		c := NewCase(run, w, false, "targeted/duties-per-epoch")
@@ -89,6 +89,14 @@ func targetedC09(run *hx.Run, r *hx.Rng, idx int) {
 		_ = sks
 		for k := 0; k <= limit+1; k++ {
 			c.ValidateSSV(kitSSV(w, spectypes.BNRoleAttester, d), at(s, 5*time.Second+time.Duration(k)*time.Millisecond), Env{Mode: "n"}, "targeted:decided-limit")
+		}
+	case 6: // pending-queued validator: refused before its activation epoch (1001), accepted from it on
+		c := NewCase(run, w, false, "targeted/pending-activation")
+		for _, s := range []uint64{baseSlot + 20, baseSlot + 32, baseSlot + 40} {
+			m := tu.TestingPrepareMessageWithParams(ks.Shares[2], 2, 1, specqbft.Height(s), id, root)
+			m.FullData = nil
+			enc, _ := m.Encode()
+			c.ValidateSSV(ssvOf(w, vPending, spectypes.BNRoleAttester, spectypes.SSVConsensusMsgType, enc), at(s, 5*time.Second), Env{Mode: "n"}, "targeted:pending-validator")
 		}
 	case 5: // partial signature count limit (the code lets limit+1 through: strict '>') and slot regression
 		c := NewCase(run, w, false, "targeted/partial-limit")
